@@ -64,6 +64,13 @@ def step(variant):
                 cl.append((acc_c1 == acc_c0, 'balance changes settle first: rewards already accrued stay with the holder, new tokens earn nothing from past updates', '%s:settle' % variant))
                 want = W.bal(W.hc) + amount if variant == 'IncreaseBalance' else W.bal(W.hc) - amount
                 cl.append((W.bal_of_entry(p['c']) == want, 'balance changes by exactly the amount', '%s:balance' % variant))
+            if variant == 'ClaimRewards':
+                paid = 0
+                for m_ in W.messages(st, res):
+                    if m_['kind'] == 'bank_send':
+                        paid = paid + sum(a_ for _, a_ in m_['coins'])
+                cl.append((z3.And(acc_c1 == acc_c0 - paid * E, acc_c1 >= 0, acc_c1 < E),
+                           'a claim takes exactly what it pays out of the claimant\'s own accrued reward (the whole units; the fraction stays), so nothing can be claimed twice', 'ClaimRewards:own'))
             if variant == 'UpdateGlobalIndex':
                 delta = p['G'] - W.G
                 claimed = W.bank - W.prev_reward_balance
@@ -225,6 +232,15 @@ def ORACLE(v, scn, out):
             bad.append('accrued reward of the holder changed from %d to %d atomics' % (acc(pre.get(kc), G0), acc(post.get(kc), G1)))
     elif what == 'fails':
         return []
+    elif what == 'own':
+        paid = 0
+        for sm in res['ok']['messages']:
+            if 'bank' in sm['msg']:
+                paid += sum(int(c['amount']) for c in sm['msg']['bank']['send']['amount'])
+        kc2 = rawstore.lp(b'holders') + rawstore.canonical(scn['info']['sender'])
+        a0, a1 = acc(pre.get(kc2), G0), acc(post.get(kc2), G1)
+        if a1 != a0 - paid * E or not (0 <= a1 < E):
+            bad.append('claimant accrued %d atomics, paid %d units, still accrued %d atomics afterwards' % (a0, paid, a1))
     elif what == 'balance':
         body = list(scn['msg'].values())[0]
         b0 = int(pre[kc]['balance']) if kc in pre else 0
